@@ -68,8 +68,11 @@ def explore(ctx, drv, model, recipes, search=False):
     nacc = 0
     nskip = 0
     for i, (r, dump, f, oracle, line) in enumerate(rows):
-        if "CRASH" in line or "HANG" in line or "UNCAUGHT" in line:
-            ctx.violation("C12/crash", "evaluating `%s` ends with %s" % (r, line[-40:]), {"family": "C12", "case": r, "impl": line})
+        if "CRASH" in line or "HANG" in line or "UNCAUGHT" in line or "DIED" in line:
+            if dump.startswith("("):
+                ctx.violation("C12/crash", "evaluating `%s` ends with %s" % (r, line[-40:]), {"family": "C12", "case": r, "impl": line})
+            else:
+                nskip += 1      # the library died while CONSTRUCTING the expression: not this property
             continue
         if i not in mrow:
             nskip += 1
